@@ -549,7 +549,7 @@ def plan(tier):
         t.append({'kind': 'gen', 'which': 'div_mod', 'n': n})
     for w in (257, 300) if q else (255, 256, 257, 258, 300, 513):
         t.append({'kind': 'subwide', 'w': w})
-    for n in (40,) if q else (40, 257):
+    for n in (40,) if q else (40, 130):
         t.append({'kind': 'divwide', 'n': n})
     for inp in range(1, (7 if q else 9)):
         t.append({'kind': 'plus', 'inp': inp, 'outmax': 8 if q else 10})
@@ -558,7 +558,7 @@ def plan(tier):
 
 def describe(tier):
     return {
-        'rule': 'gen: generate_sqrt n<=16 (18) and generate_div_mod n<=7 (8), ALL operand values; subwide/divwide: subtraction at widths 257/300 (thorough 255..513) equal and off by one, div_mod at 40 (257) bits, operands driven by a 12-input folded host, all 4096 host assignments; hosts SATW/DEC (every two-operand gate over the operand bits already present / n-ary decoys only) for <= 4 operand bits; sub: generate/add_sub_two_numbers and add_subtract_with_compare for all width pairs x endianness x hosts (H0 inputs, H1 '
+        'rule': 'gen: generate_sqrt n<=16 (18) and generate_div_mod n<=7 (8), ALL operand values; subwide/divwide: subtraction at widths 257/300 (thorough 255..513) equal and off by one, div_mod at 40 (130) bits, operands driven by a 12-input folded host, all 4096 host assignments; hosts SATW/DEC (every two-operand gate over the operand bits already present / n-ary decoys only) for <= 4 operand bits; sub: generate/add_sub_two_numbers and add_subtract_with_compare for all width pairs x endianness x hosts (H0 inputs, H1 '
         'non-input operands, and the live input list of the host as operand a); div_mod (incl. b=0), sqrt (odd and even n), equality gadget (every constant 0..2^(n+1); widths 12..100(200) over a stated alphabet: 10 constants around 0 / 2^(w-1) / 2^w x operand values {constant, every single-bit flip of it, 0, all ones}), plus-one '
         '(inp x out x endianness x add_outputs x result_labels given/omitted x H0/H1/H2), if-then-else and pairwise gadgets on a '
         'host with existing gates/outputs/blocks over every operand tuple incl. internal gates and repeats; all operand values; every generate_* is called, its result edited, and called again (fresh circuit each time). '
